@@ -123,6 +123,40 @@ def parse_frame(buf, pos=0):
     return f, f.end
 
 
+def parse_header(buf, pos=0):
+    """Header fields of a possibly incomplete frame: (Frame without payload,
+    declared length) or (None, None) if even the header is incomplete."""
+    n = len(buf)
+    if n - pos < 2:
+        return None, None
+    b0, b1 = buf[pos], buf[pos + 1]
+    f = Frame()
+    f.start = pos
+    f.fin = b0 >> 7
+    f.rsv1 = (b0 >> 6) & 1
+    f.rsv2 = (b0 >> 5) & 1
+    f.rsv3 = (b0 >> 4) & 1
+    f.opcode = b0 & 15
+    f.masked = b1 >> 7
+    ln = b1 & 127
+    p = pos + 2
+    f.form = 7
+    if ln == 126:
+        if n - p < 2:
+            return None, None
+        (ln,) = struct.unpack_from("!H", buf, p)
+        f.form = 16
+    elif ln == 127:
+        if n - p < 8:
+            return None, None
+        (ln,) = struct.unpack_from("!Q", buf, p)
+        f.form = 64
+    f.key = None
+    f.payload = b""
+    f.end = None
+    return f, ln
+
+
 def decode_frames(buf):
     """Lenient: parse as many whole frames as possible; return (frames, rest)."""
     frames = []
